@@ -208,3 +208,36 @@ def run(prop, tier, seed):
 
 if __name__ == '__main__':
     sys.exit(run('C11', sys.argv[1] if len(sys.argv) > 1 else 'quick', 0))
+
+
+def run_single(host_rel, harness_file, modname, harness, scratch, timeout=900):
+    """Runs one Kani harness injected as a child module of /repo/<host_rel> in a scratch clone.
+    Returns (verdict, detail, playback): verdict in ok | violation | undecided."""
+    dst = os.path.join(scratch, 'kani1', 'repo')
+    os.makedirs(os.path.dirname(dst), exist_ok=True)
+    subprocess.run(['rsync', '-a', '--delete', '--exclude', 'target', '--exclude', '.git', REPO + '/', dst + '/'], check=True)
+    with open(os.path.join(dst, host_rel), 'a') as f:
+        f.write('\n#[cfg(kani)]\n#[path = "%s"]\nmod %s;\n' % (harness_file, modname))
+    env = dict(os.environ, CARGO_NET_OFFLINE='true')
+    try:
+        p = subprocess.run(['cargo', 'kani', '--output-format', 'regular', '--harness', harness], cwd=dst, env=env, capture_output=True, text=True, timeout=timeout)
+    except subprocess.TimeoutExpired:
+        return 'undecided', 'cargo kani timed out after %d s' % timeout, None
+    res = parse(p.stdout + '\n' + p.stderr).get(harness)
+    if not res or not res['checks']:
+        return 'undecided', 'no result for harness %s: %s' % (harness, (p.stdout + p.stderr)[-600:]), None
+    bad = [c for c in res['checks'] if c[1] == 'FAILURE']
+    und = [c for c in res['checks'] if c[1] not in ('SUCCESS', 'FAILURE', 'UNREACHABLE')]
+    if bad:
+        play = None
+        try:
+            p2 = subprocess.run(['cargo', 'kani', '-Z', 'concrete-playback', '--concrete-playback=print', '--harness', harness], cwd=dst, env=env,
+                                capture_output=True, text=True, timeout=timeout)
+            m = re.search(r'```(.*?)```', p2.stdout, re.S)
+            play = m.group(1).strip() if m else None
+        except Exception:
+            pass
+        return 'violation', '%s: %s (%s)' % (bad[0][0], bad[0][2], bad[0][3]), play
+    if und or res['verdict'] != 'SUCCESSFUL':
+        return 'undecided', 'kani verdict %s, %d undetermined checks' % (res['verdict'], len(und)), None
+    return 'ok', '%d checks SUCCESS in %.1f s' % (len(res['checks']), res['time'] or 0), None
